@@ -116,6 +116,8 @@ def verify_function(tu, fn_name, contracts, int_mode='bv', num_mode='real', pref
             gh[gname] = z3.Array(gname, exe.sem.idx_sort(), exe.sem.idx_sort())
         elif gsort == 'int':
             gh[gname] = z3.Const(gname, exe.sem.idx_sort())
+        elif gsort == 'real' and exe.sem.num_mode == 'real':
+            gh[gname] = z3.Real(gname)
         else:
             raise FrontEndError('ghost parameter sort ' + str(gsort))
     exe.__dict__.setdefault('ghosts', {})[fn_name] = gh
